@@ -84,8 +84,11 @@ def ts_function_types():
             continue  # docstring
         if isinstance(st, ast.If) and not st.orelse and len(st.body) == 1 and isinstance(st.body[0], ast.Return):
             t = st.test
-            if isinstance(t, ast.Compare) and isinstance(t.ops[0], ast.Eq) and ast.unparse(t.left) == "node.type":
+            if isinstance(t, ast.Compare) and len(t.ops) == 1 and isinstance(t.ops[0], ast.Eq) and ast.unparse(t.left) == "node.type":
                 out.append(const_value(t.comparators[0]))
+                continue
+            if isinstance(t, ast.Compare) and len(t.ops) == 1 and isinstance(t.ops[0], ast.In) and ast.unparse(t.left) == "node.type":
+                out.extend(str_elems(t.comparators[0]))      # node.type in ("a", "b")
                 continue
         if isinstance(st, ast.Return) and isinstance(st.value, ast.Constant) and st.value.value is None:
             continue
@@ -159,6 +162,266 @@ def default_limit():
     return defn("default_max_nesting_depth", "nat", str(v))
 
 
+# ---------------------------------------------------------------- control-flow templates (fail closed)
+# The expected source of a function with holes: a name H_<x> in expression position matches any expression and
+# binds it.  Everything else (statement structure, call targets, argument order, operators, attribute names) must
+# coincide with the source after dropping docstrings, annotations and defaults' annotations.  A function whose
+# shape differs from its template makes the item fail closed, so the hand-written Gallina control flow that the
+# template describes can not silently drift from the code; the holes become Gen constants the model reads.
+def _norm(fn):
+    import copy
+    fn = copy.deepcopy(fn)
+    for x in ast.walk(fn):
+        if isinstance(x, (ast.FunctionDef, ast.AsyncFunctionDef)):
+            b = x.body
+            if b and isinstance(b[0], ast.Expr) and isinstance(b[0].value, ast.Constant) and isinstance(b[0].value.value, str):
+                x.body = b[1:] or [ast.Pass()]
+            x.returns = None
+            x.type_comment = None
+        if isinstance(x, ast.arg):
+            x.annotation = None
+
+    class _Ann(ast.NodeTransformer):      # `x: T = v` is `x = v` for control flow
+        def visit_AnnAssign(self, n):
+            self.generic_visit(n)
+            if n.value is None:
+                return n
+            return ast.Assign(targets=[n.target], value=n.value)
+    return _Ann().visit(fn)
+
+
+def _match(t, a, binds, where):
+    if isinstance(t, ast.Name) and t.id.startswith("H_"):
+        if not isinstance(a, ast.expr):
+            raise Unsupported(f"{where}: hole {t.id} against a non-expression")
+        if t.id in binds and ast.dump(binds[t.id]) != ast.dump(a):
+            raise Unsupported(f"{where}: hole {t.id} bound to two different expressions ({ast.unparse(binds[t.id])} / {ast.unparse(a)})")
+        binds[t.id] = a
+        return
+    if type(t) is not type(a):
+        raise Unsupported(f"{where}: expected {type(t).__name__} `{_short(t)}`, found {type(a).__name__} `{_short(a)}`")
+    for field in t._fields:
+        if field in ("ctx", "type_comment", "kind"):
+            continue
+        tv, av = getattr(t, field, None), getattr(a, field, None)
+        if isinstance(tv, list):
+            if not isinstance(av, list) or len(tv) != len(av):
+                raise Unsupported(f"{where}: `{_short(t)}` expected {len(tv)} {field}, found {len(av) if isinstance(av, list) else av!r} in `{_short(a)}`")
+            for x, y in zip(tv, av):
+                if isinstance(x, ast.AST):
+                    _match(x, y, binds, where)
+                elif x != y:
+                    raise Unsupported(f"{where}: {field} {x!r} != {y!r}")
+        elif isinstance(tv, ast.AST):
+            if not isinstance(av, ast.AST):
+                raise Unsupported(f"{where}: `{_short(t)}` lacks {field} in `{_short(a)}`")
+            _match(tv, av, binds, where)
+        elif tv != av:
+            raise Unsupported(f"{where}: {field} expected {tv!r}, found {av!r} in `{_short(a)}`")
+
+
+def _short(n):
+    try:
+        return ast.unparse(n).split("\n")[0][:70]
+    except Exception:  # noqa: BLE001
+        return type(n).__name__
+
+
+def match_template(template_src: str, scope, name: str, binds=None):
+    t = _norm(ast.parse(template_src).body[0])
+    a = _norm(find_func(scope, name))
+    binds = {} if binds is None else binds
+    _match(t, a, binds, name)
+    return binds
+
+
+def _nat(binds, hole, where):
+    v = const_value(binds[hole])
+    if not isinstance(v, int) or isinstance(v, bool) or v < 0:
+        raise Unsupported(f"{where}: {hole} is not a natural-number literal: {v!r}")
+    return v
+
+
+PY_VISITOR_TEMPLATES = {
+    "_visit_node": """
+def _visit_node(node, current_depth, tracker, default_line, is_elif=False):
+    if isinstance(node, ast.If):
+        _visit_if_node(node, current_depth, tracker, default_line, is_elif)
+    elif isinstance(node, _CONTROL_STRUCTURES):
+        _visit_control_structure(node, current_depth, tracker, default_line)
+    else:
+        _visit_children(node, current_depth, tracker, default_line)
+""",
+    "_visit_if_node": """
+def _visit_if_node(node, current_depth, tracker, default_line, is_elif):
+    if not is_elif:
+        current_depth += H_if_inc
+        tracker.record(node, current_depth, default_line)
+    for child in node.body:
+        _visit_node(child, current_depth, tracker, default_line)
+    if _is_elif_chain(node.orelse):
+        _visit_node(node.orelse[0], current_depth, tracker, default_line, is_elif=True)
+    else:
+        for child in node.orelse:
+            _visit_node(child, current_depth, tracker, default_line)
+""",
+    "_visit_control_structure": """
+def _visit_control_structure(node, current_depth, tracker, default_line):
+    current_depth += H_ctl_inc
+    tracker.record(node, current_depth, default_line)
+    _visit_children(node, current_depth, tracker, default_line)
+""",
+    "_visit_children": """
+def _visit_children(node, current_depth, tracker, default_line):
+    for child in ast.iter_child_nodes(node):
+        _visit_node(child, current_depth, tracker, default_line)
+""",
+    "_is_elif_chain": """
+def _is_elif_chain(orelse):
+    return len(orelse) == H_elif_len and isinstance(orelse[0], ast.If)
+""",
+    "record": """
+def record(self, node, depth, default_line):
+    if depth > self.max_depth:
+        self.max_depth = depth
+        self.max_depth_line = getattr(node, "lineno", default_line)
+""",
+    "calculate_max_depth": """
+def calculate_max_depth(self, func_node):
+    tracker = _DepthTracker(func_node.lineno)
+    for stmt in func_node.body:
+        _visit_node(stmt, H_start, tracker, func_node.lineno)
+    return (tracker.max_depth, tracker.max_depth_line)
+""",
+    "find_all_functions": """
+def find_all_functions(self, tree):
+    functions = []
+    for node in ast.walk(tree):
+        if isinstance(node, H_fn_classes):
+            functions.append(node)
+    return functions
+""",
+}
+
+
+def py_visitor_shape():
+    """control flow of the Python depth visitor and of the function search: shape checked against the templates
+    above; the increments and the elif-chain length become constants of the model (Model/Nesting.v py_visit_g)"""
+    mod = parse(D + "python_analyzer.py")
+    binds = {}
+    for name, tpl in PY_VISITOR_TEMPLATES.items():
+        scope = mod
+        if name == "record":
+            scope = find_class(mod, "_DepthTracker")
+        elif name in ("calculate_max_depth", "find_all_functions"):
+            scope = find_class(mod, "PythonNestingAnalyzer")
+        match_template(tpl, scope, name, binds)
+    init = find_func(find_class(mod, "_DepthTracker"), "__init__")
+    zero = [st for st in init.body if isinstance(st, ast.Assign) and ast.unparse(st.targets[0]) == "self.max_depth"]
+    if len(zero) != 1 or const_value(zero[0].value) != 0:
+        raise Unsupported("_DepthTracker.__init__: max_depth does not start at literal 0")
+    return (defn("py_if_inc", "nat", str(_nat(binds, "H_if_inc", "_visit_if_node")))
+            + defn("py_ctl_inc", "nat", str(_nat(binds, "H_ctl_inc", "_visit_control_structure")))
+            + defn("py_elif_len", "nat", str(_nat(binds, "H_elif_len", "_is_elif_chain"))))
+
+
+TS_COLLECT_TEMPLATE = """
+def _collect_functions_recursive(self, node, functions):
+    func_info = self.extract_function_info(node)
+    if func_info:
+        functions.append(func_info)
+    for child in node.children:
+        self._collect_functions_recursive(child, functions)
+"""
+RS_COLLECT_TEMPLATE = """
+def _collect_functions_recursive(self, node, functions):
+    if node.type == H_fn_type:
+        name = self.extract_identifier_name(node)
+        functions.append((node, name))
+    for child in node.children:
+        self._collect_functions_recursive(child, functions)
+"""
+
+
+def collectors_shape():
+    """pre-order collection over ALL children in both tree-sitter analyzers (Model/NestingDisc.v ts_collect)"""
+    match_template(TS_COLLECT_TEMPLATE, find_class(parse(D + "typescript_function_extractor.py"), "TypeScriptFunctionExtractor"),
+                   "_collect_functions_recursive")
+    match_template("""
+def collect_all_functions(self, root_node):
+    functions = []
+    self._collect_functions_recursive(root_node, functions)
+    return functions
+""", find_class(parse(D + "typescript_function_extractor.py"), "TypeScriptFunctionExtractor"), "collect_all_functions")
+    match_template("""
+def find_all_functions(self, root_node):
+    return self.function_extractor.collect_all_functions(root_node)
+""", find_class(parse(D + "typescript_analyzer.py"), "TypeScriptNestingAnalyzer"), "find_all_functions")
+    match_template(RS_COLLECT_TEMPLATE, find_class(parse(D + "rust_analyzer.py"), "RustNestingAnalyzer"), "_collect_functions_recursive")
+    match_template("""
+def find_all_functions(self, root_node):
+    if not TREE_SITTER_RUST_AVAILABLE or root_node is None:
+        return []
+    functions = []
+    self._collect_functions_recursive(root_node, functions)
+    return functions
+""", find_class(parse(D + "rust_analyzer.py"), "RustNestingAnalyzer"), "find_all_functions")
+    return defn("collectors_preorder_all_children", "bool", "true")
+
+
+def limit_chain():
+    """NestingConfig.from_dict and the --max-depth override: shape checked; key names, the fallback inside a
+    language block and the languages the override reaches become constants of Model/NestingDisc.v"""
+    cfg = find_class(parse(D + "config.py"), "NestingConfig")
+    b = match_template("""
+@classmethod
+def from_dict(cls, config, language=None):
+    if language and language in config:
+        lang_config = config[language]
+        max_nesting_depth = lang_config.get(H_key, H_fallback)
+    else:
+        max_nesting_depth = config.get(H_key, H_default)
+    return cls(max_nesting_depth=max_nesting_depth, enabled=config.get('enabled', True))
+""", cfg, "from_dict")
+    key = const_value(b["H_key"])
+    if not isinstance(key, str):
+        raise Unsupported("from_dict: key is not a string literal")
+    if ast.unparse(b["H_default"]) != "DEFAULT_MAX_NESTING_DEPTH":
+        raise Unsupported(f"from_dict: default is {ast.unparse(b['H_default'])}")
+    fb = ast.unparse(b["H_fallback"])
+    if fb == f"config.get({key!r}, DEFAULT_MAX_NESTING_DEPTH)":
+        fallback_top = "true"
+    elif fb == "DEFAULT_MAX_NESTING_DEPTH":
+        fallback_top = "false"
+    else:
+        raise Unsupported(f"from_dict: unexpected fallback inside a language block: {fb}")
+    cli = parse("src/cli/linters/structure_quality.py")
+    c = match_template("""
+def _apply_nesting_config_override(orchestrator, max_depth, verbose):
+    if max_depth is None:
+        return
+    nesting_config = ensure_config_section(orchestrator, H_section)
+    nesting_config[H_key] = max_depth
+    _apply_nesting_to_languages(nesting_config, max_depth)
+    logger.debug(H_text)
+""", cli, "_apply_nesting_config_override")
+    d = match_template("""
+def _apply_nesting_to_languages(nesting_config, max_depth):
+    for lang in H_langs:
+        with suppress(KeyError):
+            nesting_config[lang][H_key] = max_depth
+""", cli, "_apply_nesting_to_languages")
+    if const_value(c["H_section"]) != "nesting" or const_value(c["H_key"]) != key or const_value(d["H_key"]) != key:
+        raise Unsupported("--max-depth override writes another section/key than from_dict reads")
+    lr = find_func(find_class(parse(D + "linter.py"), "NestingDepthRule"), "_load_config")
+    match_template("""
+def _load_config(self, context):
+    return load_linter_config(context, 'nesting', NestingConfig)
+""", find_class(parse(D + "linter.py"), "NestingDepthRule"), "_load_config")
+    return (defn("limit_key", "string", coq_string(key)) + defn("lang_block_fallback_top", "bool", fallback_top)
+            + defn("cli_override_languages", "list string", coq_str_list(str_elems(d["H_langs"]))))
+
+
 ITEMS = [
     ("py_control_structures", py_controls),
     ("ts_nesting_types", ts_types),
@@ -171,4 +434,7 @@ ITEMS = [
     ("skip_cmps", skip_cmps),
     ("messages", messages),
     ("default_max_nesting_depth", default_limit),
+    ("py_visitor_shape", py_visitor_shape),
+    ("collectors_shape", collectors_shape),
+    ("limit_chain", limit_chain),
 ]
